@@ -71,3 +71,29 @@ CHECKS["C07"] = dict(
     outside=["more than 2 (quick) / 3 (thorough) nodes, names longer than 2 bytes, multi-byte UTF-8", "size/ETag reporting (fileToObj; covered under C01)",
              "ListObjectVersions paging"],
 )
+
+CHECKS["C16"] = dict(
+    explanation="utils.IsValidBucketName (real SSA incl. Go's regexp engine interpreted symbolically) against the S3 naming rules written as one formula: "
+                "all names up to the length bound, names around the 63-character limit, and dotted-quad shaped names.",
+    harnesses=[
+        dict(name="H16a-short", pkgs=["./s3api/utils"], entry="s3api/utils.VfBucketNameShort", pkgname="utils", native=True, reach=["accepted", "refused"]),
+        dict(name="H16a-long", pkgs=["./s3api/utils"], entry="s3api/utils.VfBucketNameLong", pkgname="utils", native=True, reach=["checked"]),
+        dict(name="H16a-ip", pkgs=["./s3api/utils"], entry="s3api/utils.VfBucketNameIP", pkgname="utils", native=True, reach=["checked"]),
+        dict(name="H16a-witness", pkgs=["./s3api/utils"], entry="s3api/utils.VfBucketNameWitness", witness=True),
+    ],
+    assumptions=["SMT solvers sound", "GoSE faithful (regexp package executed from its real SSA)"],
+    outside=["reserved prefixes/suffixes (xn--, sthree-, -s3alias, --ol-s3)", "bucket settings round trips, ListBuckets, DeleteBucket races (not built yet)"],
+)
+
+_CTRL = dict(pkgs=["./s3api"], redirects="spec/redirects_ctrl.json", pkgname="s3api", native=True, native_partial=True, key_trace=['"route='])
+CHECKS["C15"] = dict(
+    explanation="Every S3 route handler (real SSA of s3api/controllers, auth.VerifyAccess, the ACL middleware) is executed symbolically with the read-only "
+                "switch on, for root, admin, bucket-owning user and unprivileged user, every sub-resource flag and the stated headers, over a recording "
+                "backend; the oracle is that no mutating backend method is ever reached. Counterexamples are replayed through a real fiber.App.",
+    harnesses=[
+        dict(name="H15-readonly", entry="s3api.VfReadonly", reach=["returned", "handler-entered"], panic_ok=True, **_CTRL),
+    ],
+    assumptions=["fiber/fasthttp request context modelled (zzvfbe): route parameters, query flags, headers, locals as set by the authentication middleware",
+                 "backend = recorder returning arbitrary results or errors", "XML/JSON request bodies = arbitrary value of the target type or malformed"],
+    outside=["headers other than the stated set are absent", "admin API routes", "what a backend does after being called"],
+)
